@@ -7,9 +7,9 @@ Written from the TTML2 / IMSC 1.1 specifications (sections 8 styling, 10 style r
   doc.times()                              # every finite instant at which something begins or ends
   doc.snapshot(t)  -> {region id: [Run]}   # visible text per region in document order; regions without text are omitted
 
-Run = (text, role, lang, props, loose): role in {"", "base", "text", "delimiter", "br"}; props = computed values of
-color, backgroundColor, fontWeight, fontStyle, textDecoration, visibility, display (of the innermost span) and textAlign
-(of the paragraph).  `loose` marks runs of a paragraph that mixes xml:space="preserve" and "default" text: the
+Run = (text, role, lang, props, loose): role in {"", "base", "text", "delimiter", "br"}; props = computed values of color,
+backgroundColor, fontWeight, fontStyle, textDecoration, visibility, display (of the span that carries the text) and
+textAlign (of the paragraph); a props value of None means `not asserted`.  `loose` marks runs of a paragraph that mixes xml:space="preserve" and "default" text: the
 interaction of the two at a boundary is not asserted (compare such paragraphs modulo white space).
 
 Attributes that are unknown or whose value is malformed are ignored (treated as absent), as the property statement says.
@@ -92,10 +92,8 @@ def parse_time(expr, params):
   m = _CLOCK.match(expr)
   if m:
     hh, mm, ss = int(m.group(1)), int(m.group(2)), int(m.group(3))
-    if mm > 59 or ss > 60:
-      raise ValueError("minutes/seconds out of range")
-    if ss == 60:
-      raise OutOfScope("leap second")
+    if mm > 59 or ss > 59:
+      raise OutOfScope("minutes or seconds above 59")       # an error in my reading of TTML2 (60 = leap second): probable only
     t = Fraction(hh * 3600 + mm * 60 + ss)
     if m.group(4) is not None:
       return t + Fraction("0" + m.group(4))
@@ -103,10 +101,12 @@ def parse_time(expr, params):
       if m.group(6) is not None:
         raise ValueError("sub-frames are not permitted in IMSC")
       frames = int(m.group(5))
-      if frames >= params.frame_rate:
+      lo, hi = sorted((Fraction(params.frame_rate), params.effective_frame_rate))
+      if frames >= hi:
         raise ValueError("frames >= frame rate")
-      if frames >= params.effective_frame_rate:
-        raise OutOfScope("frames between effective and nominal frame rate")
+      if frames >= lo:
+        # the bound is the nominal ttp:frameRate in my reading, the effective rate in another: not asserted
+        raise OutOfScope("frames between the nominal and the effective frame rate")
       return t + Fraction(frames) / params.effective_frame_rate
     return t
   raise ValueError("not a time expression")
@@ -234,6 +234,7 @@ class Node:
     self.space = None
     self.spec = {}
     self.anim = None         # for sets: (property, value)
+    self.td_unasserted = False
     self.id = xml.get(q(NS_XML, "id")) if xml is not None else None
 
   def active(self, t):
@@ -390,8 +391,8 @@ class Doc:
     n.spec = spec
     if kind == "region" and None in spec.get("textDecoration", ()):
       # resolving a partial value at the root of inheritance against the initial value is a matter of the ISD style
-      # computation (C03), not of reading the document
-      raise OutOfScope("partial textDecoration on a region")
+      # computation (C03), not of reading the document: textDecoration is not asserted for the text of this region
+      n.td_unasserted = True
     # children
     mixed = kind in MIXED
     if mixed and elem.text:
@@ -401,7 +402,7 @@ class Doc:
       if ck == "set":
         s = self._content(c, n)
         if kind == "region" and s.anim and s.anim[0] == "textDecoration" and None in s.anim[1]:
-          raise OutOfScope("partial textDecoration on a region")
+          n.td_unasserted = True
         n.sets.append(s)
         n.order.append(s)
       elif ck == "span" and c.get(q(NS_TTS, "ruby")) == "none" and "ruby-none-span-dropped" in self.deviations:
@@ -536,6 +537,10 @@ class Doc:
         items = []
         self._walk(self.body, r.id, False, comp, None, t, items, None, "")
         runs = _finish(items)
+        if r.td_unasserted:
+          for run in runs:
+            if run.props is not None:
+              run.props["textDecoration"] = None       # not asserted
         if runs:
           out[r.id] = runs
     else:
